@@ -345,7 +345,10 @@ def walk(dispatcher, node, definition=None):
             lrcs_stack[:] = lrcs_stack[:idx]
             lrcs_stack.append(LayoutChunk(
                 rule, handler,
-                layout_rule_chunks[idx].node,
+                # the handler renders the rule that completes the tuple,
+                # so it needs the node that rule came from (idx indexes
+                # the normalized stack, not layout_rule_chunks).
+                lrc.node,
             ))
 
         # second pass: now the processing can be done.
